@@ -81,7 +81,9 @@ class Prop:
                 op = {"k": "read_all"}
             ops.append(op)
         return {"prop": ID, "seed": seed,
-                "config": {"ncand": ncand, "listen": listen, "proto_only": proto_only},
+                "config": {"ncand": ncand, "listen": listen, "proto_only": proto_only,
+                           # where the deferring traits and __prefix__ are declared
+                           "child_cls": c.choice(["Child", "Child", "ChildSub", "ChildMixed"])},
                 "ops": ops}
 
     # ------------------------------------------------------------------ model
@@ -129,7 +131,9 @@ class Prop:
         cands = [Target(uid=i) for i in range(ncand)]
         mids = [Mid(uid=k, inner=cands[m.mids[k]["inner"]]) for k in range(2)]
         self.names = sorted(PROTO_NAMES) if cfg.get("proto_only") else sorted(DEFER)
-        child = (ProtoChild if cfg.get("proto_only") else Child)(parent=cands[0], mid=mids[0])
+        from ..zoo11 import CHILD_CLASSES
+        child = (ProtoChild if cfg.get("proto_only")
+                 else CHILD_CLASSES[cfg.get("child_cls", "Child")])(parent=cands[0], mid=mids[0])
         held = [True] * ncand          # harness still references candidate j
         routed = []
         self._pushed = False
